@@ -36,6 +36,7 @@ ASYNC_CLASSES = ['AsyncMachine', 'HierarchicalAsyncMachine', 'AsyncGraphMachine'
 ALL_CLASSES = SYNC_CLASSES + ASYNC_CLASSES
 
 SIG_RETRIGGER = 'C09.hsm:_change_state-while-model-not-in-transition.source'
+TABLE_MODULE = 'Props.C09Tables'
 HANG_S = 30.0       # watchdog for one run of a locked class (the sandbox may be heavily loaded)
 
 
@@ -440,6 +441,11 @@ STREAMS = {
     'retrigger': dict(knobs=_k(max_models=1, max_states=4, max_events=3, p_cmds=0.5, max_cmds=1, p_raise=0.02,
                                p_on_exception=0.2, p_queued=0.0, max_history=5, p_cond_false=0.3, p_share_cb=0.0),
                       steer='steer_retrigger', quick=(16, 8), thorough=(32, 60)),
+    # malformed neighbourhood, correspondence only: transitions to unregistered destinations (the order "resolve the
+    # destination, then exit" of the hierarchical classes is part of Model/HsmFlat.lean)
+    'malformed': dict(knobs=lambda: flat.Knobs(max_models=2, p_unknown_event=0.0, p_bad_dest=0.12, p_raise=0.05,
+                                               p_on_exception=0.3, p_cmds=0.2, max_history=8),
+                      tie_only=True, quick=(8, 12), thorough=(16, 100)),
 }
 
 
@@ -638,12 +644,7 @@ def classes_for(d, dd, tier, rng):
         names += ASYNC_CLASSES
     if readds_removed_model(d):
         names = [n for n in names if 'Graph' not in n]
-    pairs = [(n, 'name' if rng.random() < 0.5 else 'factory') for n in names]
-    if tier == 'quick' and len(pairs) > 6:
-        # quick: six classes per description, every class equally often over the run
-        rng.shuffle(pairs)
-        pairs = pairs[:6]
-    return pairs
+    return [(n, 'name' if rng.random() < 0.5 else 'factory') for n in names]
 
 
 def _corr(kind, what, stream, descs, runs, clsname):
@@ -651,7 +652,7 @@ def _corr(kind, what, stream, descs, runs, clsname):
     idx = sorted(runs)
     if not idx:
         return out
-    enc = (lambda d: d.enc_case()) if kind == 'flat' else aflat.enc_aflat
+    enc = aflat.enc_aflat if kind == 'aflat' else (lambda d: d.enc_case())
     for i, a in zip(idx, common.batch_driver([(kind, enc(descs[i])) for i in idx])):
         m = flat.parse_model_answer(a)
         if m is None:
@@ -667,10 +668,12 @@ def _corr(kind, what, stream, descs, runs, clsname):
     return out
 
 
-def corr_failures(stream, descs, refs, adescs, aruns):
+def corr_failures(stream, descs, refs, adescs, aruns, hruns=None):
     """the tie of the theorems' models to these inputs: Lean flat engine == `Machine` run on every generated description;
-    Lean async engine == `AsyncMachine` run on the trigger-only ones"""
+    Lean depth-1 hierarchical engine (Model/HsmFlat.lean) == `HierarchicalMachine` run; Lean async engine ==
+    `AsyncMachine` run on the trigger-only descriptions"""
     out = _corr('flat', 'flat_model_eq_Machine', stream, descs, dict(enumerate(refs)), 'Machine')
+    out += _corr('hflat', 'hsm_flat_model_eq_HierarchicalMachine', stream, descs, hruns or {}, 'HierarchicalMachine')
     tied = {i: r for i, r in aruns.items() if static_kinds(adescs[i]) <= {TRIGGER}}
     out += _corr('aflat', 'async_model_eq_AsyncMachine', stream, adescs, tied, 'AsyncMachine')
     return out
@@ -688,11 +691,20 @@ def bump(st, k, kk, n=1):
 def chunk(seed, idx, n, stream, tier):
     rng = random.Random('C09/%s/%d/%d' % (stream, seed, idx))
     ex = Exploration()
-    descs, refs, adescs, aruns = [], [], {}, {}
+    descs, refs, adescs, aruns, hruns = [], [], {}, {}, {}
     hung = False
     for _ in range(n):
         for d in gen(stream, rng):
             ref = reference(d)
+            if STREAMS[stream].get('tie_only'):
+                # malformed neighbourhood (unregistered destinations): no class is compared with another one; the two
+                # engine models are tied to their classes (correspondence only)
+                descs.append(d)
+                refs.append(ref)
+                hruns[len(descs) - 1] = run_class(d, 'HierarchicalMachine', 'name')
+                ex.evaluations += 2
+                bump(ex.stats, 'stream', stream, 2)
+                continue
             dd = decorated(stream, d, rng)
             aref = reference(dd) if dd is not None else None
             descs.append(d)
@@ -709,6 +721,8 @@ def chunk(seed, idx, n, stream, tier):
                 hung = hung or run.hang
                 if name == 'AsyncMachine' and not run.hang:
                     aruns[len(descs) - 1] = run
+                if name == 'HierarchicalMachine':
+                    hruns[len(descs) - 1] = run
                 ex.evaluations += 1
                 ex.traces_validated += 1
                 executed = any(i[0] == 'ret' and i[2] == 1 for i in use_ref.items)
@@ -730,7 +744,7 @@ def chunk(seed, idx, n, stream, tier):
             flatcheck.trace_stats(ex.stats, d, ref)
         if sum(1 for f in ex.failures if f.signature != SIG_RETRIGGER) >= 3:
             break       # enough counterexamples from this chunk
-    ex.failures += corr_failures(stream, descs, refs, adescs, aruns)
+    ex.failures += corr_failures(stream, descs, refs, adescs, aruns, hruns)
     return ex
 
 
@@ -753,7 +767,8 @@ class C09(runner.Check):
     theorems = ('TM.C09_factory_exact', 'TM.C09_cls_triples', 'TM.C09_ctor_compatible',
                 'TM.C09_graph_noninterference', 'TM.C09_markup_noninterference', 'TM.C09_side_table_write_only',
                 'TM.Locked.C09_locked_single_thread', 'TM.Locked.C09_locks_once_default',
-                'TM.C09_async_flat', 'TM.C09_async_graph_flat')
+                'TM.C09_async_flat', 'TM.C09_async_graph_flat',
+                'TM.C09_hsm_flat_partial', 'TM.C09_hsm_flat_counterexample')
     manifest = dict(
         level='proof', design='DESIGN.md 4/C09 + design_notes/C09.md',
         text="Lean 4 theorems, unbounded: (1) the flat engine instrumented with a side table in exactly the places where "
@@ -763,7 +778,10 @@ class C09(runner.Check):
              "configurations, scripts with callbacks that trigger / raise / add / remove models, histories); (2) with one "
              "thread the lock protocol of locking.py never waits, cannot deadlock and computes what the unlocked sequential "
              "semantics computes (C09_locked_single_thread); (3) the async engine agrees with the synchronous one up to "
-             "C07's observation map (C09_async_flat = C07_flat_partial; C09_async_graph_flat composes it with (1)); (4) "
+             "C07's observation map (C09_async_flat = C07_flat_partial; C09_async_graph_flat composes it with (1)); (4) the "
+             "depth-1 collapse of NestedTransition._change_state (Model/HsmFlat.lean: destination resolved first, the state "
+             "the model is in is exited) is the flat engine for every script without re-entrant calls "
+             "(C09_hsm_flat_partial) and is NOT in general (C09_hsm_flat_counterexample: listed finding); (5) "
              "over a table regenerated from the LIVE classes before every build, by decide: the factory returns for each "
              "of the 12 supported feature tuples a class whose issubclass flags are the tuple and raises ValueError for "
              "the 4 locked+asyncio tuples (C09_factory_exact), every class resolves state_cls/event_cls/transition_cls "
@@ -773,23 +791,27 @@ class C09(runner.Check):
              "model states, result truth values, exception types and callback sequences are compared pairwise.",
         note="Trusted: Lean kernel; hand-written models Model/Core.lean, Model/Side.lean (hook placement read off diagrams.py / "
              "asyncio.py), Model/Locked.lean, Model/Async.lean; harness recorders and the table translator. The MRO "
-             "composition itself is Python and is covered by the differential only (sampling). C09_nested_flat is NOT "
-             "proved (needs the nested engine model of C02): hierarchical classes are decided by the differential, which "
-             "reports the open finding F-C09-hsm-retrigger-exit. Async classes are compared inside C07's regime; only the "
+             "composition itself is Python and is covered by the differential only (sampling). C09_nested_flat against the "
+             "full nested engine is NOT proved (needs the nested engine model of C02); Model/HsmFlat.lean is the depth-1 "
+             "collapse of one function, tied to HierarchicalMachine by trace equality; everything else about the "
+             "hierarchical classes is decided by the differential, which reports the open finding "
+             "F-C09-hsm-retrigger-exit. Async classes are compared inside C07's regime; only the "
              "Mermaid diagram backend is importable in the sandbox.",
         technique='Lean 4 proof (structural simulation / erasure, LTS invariant, decide over a generated table) + '
-                  'implementation-level differential monitor on 12 classes + model correspondence')
+                  'implementation-level differential monitor on 12 classes + model correspondence',
+        engines=('table-translator',))
     rule = ('descriptions from the flat generator with the knobs of C01 (documented order), C04 (crash sweep: a callback '
             'position of a clean trace raises Exception / BaseException, with / without on_exception, second faults), C05 '
             '(callbacks that trigger events on the same / other / unregistered models, remove models, raise; queued and '
             'unqueued), a membership stream (add_model / remove_model / dispatch from callers and callbacks) and an '
-            'unqueued re-trigger stream on one model; every description runs on Machine and on the other classes (quick: 6 '
-            'of 11 per description, thorough: all), each reached by name or through MachineFactory.get_predefined (coin '
-            'flip); async classes: callbacks independently plain / coroutine / suspending coroutine; a case = '
+            'unqueued re-trigger stream on one model (+ a malformed stream with unregistered destinations, model '
+            'correspondence only); every description runs on Machine and on the other 11 classes, each reached by name or '
+            'through MachineFactory.get_predefined (coin flip); async classes: callbacks independently plain / coroutine / suspending coroutine; a case = '
             '(description, class); non-trivial = the reference run executes at least one transition; distinct = different '
             'protocol encoding or class')
     trusted = ('hand-written models lean/Model/Core.lean (tied to Machine by trace equality on every generated case), '
-               'lean/Model/Side.lean (placement of the side-table hooks), lean/Model/Locked.lean, lean/Model/Async.lean',
+               'lean/Model/HsmFlat.lean (tied to HierarchicalMachine likewise), lean/Model/Side.lean (placement of the '
+               'side-table hooks), lean/Model/Locked.lean, lean/Model/Async.lean (tied to AsyncMachine on trigger-only cases)',
                'harness/extract_tables.py (issubclass / inspect.signature readings written to lean/Generated/Tables.lean)',
                'harness/props/c09.py recorders, observation (aflat.obs for async classes), the twin classes that classify '
                'the listed finding; Mermaid is the only diagram backend exercised')
@@ -811,21 +833,46 @@ class C09(runner.Check):
             'instead of ValueError when an unregistered model is removed (normalised by the harness); '
             'LockedGraphMachine.add_model takes no model_context (not used)',
             'locked classes run on one thread under a watchdog; thread schedules are C06\'s business',
-            'hierarchical classes on flat configurations are decided by the differential only (no nested engine model '
-            'yet); the one listed difference is classified by twin classes: it is the listed finding only if the class '
-            'behaves exactly like Machine-exiting-the-current-state on an input where a state change starts while the '
-            'model is not in transition.source',
+            'hierarchical classes: only the depth-1 collapse of NestedTransition._change_state is modelled in Lean '
+            '(Model/HsmFlat.lean, tied by trace equality); the rest of the nested engine on flat configurations is decided '
+            'by the differential. The one listed difference is classified by twin classes: it is the listed finding only '
+            'if the class behaves exactly like Machine-exiting-the-current-state on an input where a state change starts '
+            'while the model is not in transition.source',
         ]
 
     # -- run -------------------------------------------------------------------------------------
     def main(self, tier):
-        """regenerate the table from the live classes, then the framework's build / audit / explore / verdict"""
+        """regenerate the table from the live classes, then the framework's build / audit / explore / verdict.
+
+        The table theorems live in `Props/C09Tables.lean`, which only this check builds (a change of the live classes
+        must not break the build other properties share): for the duration of `Check.main` the framework's build and
+        axiom audit are extended by that module; a failed build of it is a broken proof obligation of C09."""
         try:
             self.table_status = extract_tables.regenerate()
         except Exception as e:      # noqa
             print('MACHINERY-ERROR property=C09 table translator failed: %r' % (e,))
             return 2
-        return runner.Check.main(self, tier)
+        orig_build, orig_axioms = common.lake_build, common.print_axioms
+
+        def build(targets=()):
+            ok, out = orig_build(targets)
+            ok2, out2 = orig_build([TABLE_MODULE])
+            return ok and ok2, out + out2
+
+        def axioms(theorems, imports=('Props',)):
+            return orig_axioms(theorems, imports=tuple(imports) + (TABLE_MODULE,))
+        common.lake_build, common.print_axioms = build, axioms
+        try:
+            return runner.Check.main(self, tier)
+        finally:
+            common.lake_build, common.print_axioms = orig_build, orig_axioms
+
+    def leanchecker(self):
+        import subprocess
+        p = subprocess.run(['lake', 'env', 'leanchecker', 'Props.C09', TABLE_MODULE], cwd=common.LEAN,
+                           stdout=subprocess.PIPE, stderr=subprocess.STDOUT, text=True)
+        if p.returncode != 0:
+            raise common.MachineryError('leanchecker failed: %s' % p.stdout[-1500:])
 
     def explore(self, tier, seed):
         ex = Exploration()
@@ -879,7 +926,8 @@ class C09(runner.Check):
             return corr_failures(case['stream'], [], [], {0: d}, {0: run_class(d, 'AsyncMachine', 'name')})
         if d.const:
             return []
-        return corr_failures(case['stream'], [d], [reference(d)], {}, {})
+        hruns = {0: run_class(d, 'HierarchicalMachine', 'name')} if case['cls'] == 'HierarchicalMachine' else {}
+        return corr_failures(case['stream'], [d], [reference(d)], {}, {}, hruns)
 
     def annotate(self, f):
         if f.kind == 'correspondence':
